@@ -297,11 +297,11 @@ class Executor(CallMixin, EvalMixin, ExprMixin, StmtMixin):
         return self.obligations[start:]
 
     def exec_stmts_toplevel(self, body, st):
-        self.pending_raises = []
+        top = []; st.exc_sink = top
         for out in self.exec_block(body, st):
             yield out
-        for s, e in self.pending_raises: yield "raise", s, e
-        self.pending_raises = []
+            while top: s, e = top.pop(0); yield "raise", s, e
+        while top: s, e = top.pop(0); yield "raise", s, e
 
     def check_post(self, c, st, val, fnode, old):
         s = st.fork(); s.env = dict(old.env)
